@@ -579,6 +579,40 @@ func c14ErrorPaths(c *Case) {
 	} else {
 		c.Inconclusive("no-/dev/full")
 	}
+	// more file operands than the process may hold open at once: they are read one after another, so the limit on
+	// open descriptors does not limit the number of files
+	{
+		var names []string
+		want := 0
+		for i := 1; i <= 150; i++ {
+			n := fmt.Sprintf("many-%03d.json", i)
+			os.WriteFile(filepath.Join(dir, n), []byte(fmt.Sprintf("[%d] %d", i, i)), 0o644)
+			names = append(names, n)
+			want += 2 * i
+		}
+		for _, t := range []struct {
+			name string
+			args []string
+			want string
+		}{
+			{"150 files under a limit of 40 descriptors", append([]string{"--", "{ s += $ } END { print s }"}, names...), fmt.Sprintf("%d\n", want)},
+			{"150 files under a limit of 40 descriptors, with selectors and ENDFILE", append([]string{"-r", "$", "-r", "[$]", "--", "ENDFILE { n++ } END { print n, $file }"}, names...), "600 many-150.json\n"},
+		} {
+			sh := "ulimit -n 40 || exit 97; exec \"$0\" \"$@\""
+			r := RunCli("/bin/sh", append([]string{"-c", sh, c.env.Jqawk}, t.args...), nil, dir, 120*time.Second)
+			if r.TimedOut || r.Exit == 97 {
+				c.Inconclusive("descriptor-limit-not-applied")
+				continue
+			}
+			c.NonTrivial("errpath:" + t.name)
+			c.Count("descriptor_limit_paths")
+			if f := cliFault(r); f != "" || r.Exit != 0 || string(r.Stdout) != t.want {
+				c.Violation(fmt.Sprintf("%s: exit %d, stdout %q (want %q), stderr %q %s", t.name, r.Exit, clip(string(r.Stdout), 60), t.want, clip(string(r.Stderr), 120), f), nil, map[string]any{"args": t.args[:4]})
+			} else {
+				c.Held()
+			}
+		}
+	}
 	// EIO on the first and second read of an input file
 	if _, err := exec.LookPath("strace"); err == nil {
 		var sb strings.Builder
